@@ -28,6 +28,7 @@ type c19Scenario struct {
 	NoJitter bool    `json:"no_jitter"`
 	Defaults bool    `json:"defaults"`
 	Ops      []c19Op `json:"ops"`
+	Shared   int     `json:"tasks_sharing_one_object_with_own_counters,omitempty"`
 }
 
 func init() {
@@ -213,6 +214,9 @@ func runC19(e *Engine, g G, o RunOpt) RunInfo {
 	// (more than about 292 years, 2^63 ns). Only the per-attempt query is used with them - no
 	// clock can wait that long - and only the bounds are asserted.
 	sc.Huge = !sc.Defaults && g.Pct("huge", 6)
+	if g.Pct("shared", 25) {
+		sc.Shared = g.Range("shared-tasks", 2, 3)
+	}
 	if sc.Huge {
 		big1 := []int{1 << 44, 1 << 53, 1 << 62, 1<<63 - 1, 9223372036854, 9223372036855}
 		sc.Cap = big1[g.N("hugecap", len(big1))]
@@ -360,6 +364,39 @@ func runC19(e *Engine, g G, o RunOpt) RunInfo {
 			if i%16 == 15 {
 				e.Yield("c19.step")
 			}
+		}
+		if sc.Shared > 0 && !sc.Huge {
+			// "The functions for Backoff are not threadsafe, but you can keep the attempt counter on your
+			// end and use durationForAttempt(int)" (backoff.go): several tasks share one configured object
+			// and query it with counters of their own; every answer obeys the statement whatever the interleaving.
+			sb := xmpp.NewVerifBackoff(sc.NoJitter, effBase, effFactor, effCap)
+			done := 0
+			for t := 0; t < sc.Shared; t++ {
+				t := t
+				e.Go(fmt.Sprintf("shared-backoff-user%d", t), func() {
+					defer func() { done++ }()
+					for k := 0; k < 6; k++ {
+						n := []int{0, 1, 3, 9, 14, 40, 70, 5000}[(t*3+k*5)%8]
+						d := sb.DurationForAttempt(n)
+						e.Yield("c19.shared.result")
+						ref := refDelayMs(effBase, effFactor, effCap, n)
+						refD, refFits := msDuration(ref)
+						capD, _ := msDuration(big.NewInt(int64(effCap)))
+						switch {
+						case d < 0:
+							e.Violate("C19", "negative-delay:shared-query", "attempt %d: delay %v is negative", n, d)
+						case d > capD:
+							e.Violate("C19", "above-cap:shared-query", "attempt %d: delay %v exceeds the cap %v", n, d, capD)
+						case sc.NoJitter && refFits && d != refD:
+							e.Violate("C19", "not-min-cap-exp:shared-query", "attempt %d without jitter, object shared by %d tasks that keep their own counters: delay %v, min(cap, base*factor^n) = %v (base %d factor %d cap %d)", n, sc.Shared, d, refD, effBase, effFactor, effCap)
+						case !sc.NoJitter && d > refD:
+							e.Violate("C19", "jitter-above-exp:shared-query", "attempt %d with jitter, object shared by %d tasks: delay %v above min(cap, base*factor^n) = %v", n, sc.Shared, d, refD)
+						}
+					}
+				})
+			}
+			e.WaitUntilFor("shared-backoff-users", time.Hour, func() bool { return done == sc.Shared })
+			e.Probe("c19.object_shared_by_tasks_with_own_counters")
 		}
 	})
 	for _, p := range e.Panics {
